@@ -19,6 +19,11 @@ pub enum Enc {
     Gzip(u32),
     Zlib(u32),
     Brotli(u32, u32),
+    /// a zlib stream (RFC 1950) that declares a window of 2^bits bytes (bits 8..=14; flate2's own encoder always
+    /// declares 2^15, i.e. a first byte 0x78): header and Adler-32 built here around a raw deflate payload
+    ZlibWindow(u32),
+    /// a gzip member whose header carries the optional FEXTRA, FNAME and FCOMMENT fields
+    GzipFields,
 }
 
 impl Enc {
@@ -27,6 +32,8 @@ impl Enc {
             Enc::Gzip(_) => "gzip",
             Enc::Zlib(_) => "deflate",
             Enc::Brotli(..) => "br",
+            Enc::ZlibWindow(_) => "deflate",
+            Enc::GzipFields => "gzip",
         }
     }
     pub fn encode(&self, data: &[u8]) -> Vec<u8> {
@@ -49,13 +56,44 @@ impl Enc {
                 }
                 out
             }
+            Enc::ZlibWindow(bits) => {
+                assert!((8..=14).contains(bits) && data.len() < (1usize << *bits), "back-references must fit the declared window");
+                let mut e = flate2::write::DeflateEncoder::new(Vec::new(), flate2::Compression::new(6));
+                e.write_all(data).unwrap();
+                let payload = e.finish().unwrap();
+                let cmf: u8 = (((*bits - 8) as u8) << 4) | 8;
+                let mut flg: u8 = 2 << 6; // FLEVEL = default, FDICT = 0
+                let rem = ((cmf as u16) * 256 + flg as u16) % 31;
+                if rem != 0 {
+                    flg += (31 - rem) as u8;
+                }
+                let (mut a, mut b) = (1u32, 0u32);
+                for x in data {
+                    a = (a + *x as u32) % 65521;
+                    b = (b + a) % 65521;
+                }
+                let mut out = vec![cmf, flg];
+                out.extend(payload);
+                out.extend(((b << 16) | a).to_be_bytes());
+                out
+            }
+            Enc::GzipFields => {
+                let mut e = flate2::GzBuilder::new()
+                    .filename("page.html")
+                    .comment("generated <html> comment")
+                    .extra(vec![b'A', b'p', 3, 0, 1, 2, 3])
+                    .mtime(1_700_000_000)
+                    .write(Vec::new(), flate2::Compression::new(6));
+                e.write_all(data).unwrap();
+                e.finish().unwrap()
+            }
         }
     }
     /// independent decode: Ok(plaintext) only if the whole input is exactly one complete stream
     pub fn decode_complete(&self, data: &[u8]) -> Result<Vec<u8>, String> {
         let mut out = Vec::new();
         match self {
-            Enc::Gzip(_) => {
+            Enc::Gzip(_) | Enc::GzipFields => {
                 let mut d = flate2::bufread::GzDecoder::new(data);
                 d.read_to_end(&mut out).map_err(|e| format!("gzip decode error: {e}"))?;
                 let rest = d.into_inner();
@@ -63,7 +101,7 @@ impl Enc {
                     return Err(format!("{} trailing byte(s) after the gzip stream", rest.len()));
                 }
             }
-            Enc::Zlib(_) => {
+            Enc::Zlib(_) | Enc::ZlibWindow(_) => {
                 let mut d = flate2::bufread::ZlibDecoder::new(data);
                 d.read_to_end(&mut out).map_err(|e| format!("zlib decode error: {e}"))?;
                 let rest = d.into_inner();
@@ -115,12 +153,29 @@ pub fn filter_lists() -> Vec<(&'static str, Vec<FilterSpec>)> {
         ),
         ("replace[div]", vec![FilterSpec::html("replace", &["div"], None, S1)]),
         ("prepend_text", vec![FilterSpec::text("prepend_text", S1)]),
+        // a text replacement emits its content once and swallows the rest: the codec stages still have to see every chunk
+        ("replace_text", vec![FilterSpec::text("replace_text", S1)]),
+        // a buffering HTML filter (selector) followed by a second HTML stage
+        (
+            "append[div]sel+prepend[html,body]",
+            vec![FilterSpec::html("append_child", &["div"], Some("p.k"), S1), FilterSpec::html("prepend_child", &["html", "body"], None, S2)],
+        ),
     ]
 }
 
 pub fn encodings(tier: Tier) -> Vec<Enc> {
     match tier {
-        Tier::Quick => vec![Enc::Gzip(0), Enc::Gzip(6), Enc::Zlib(1), Enc::Zlib(9), Enc::Brotli(0, 16), Enc::Brotli(5, 22), Enc::Brotli(11, 22)],
+        Tier::Quick => vec![
+            Enc::Gzip(0),
+            Enc::Gzip(6),
+            Enc::Zlib(1),
+            Enc::Zlib(9),
+            Enc::Brotli(0, 16),
+            Enc::Brotli(5, 22),
+            Enc::Brotli(11, 22),
+            Enc::ZlibWindow(12),
+            Enc::GzipFields,
+        ],
         Tier::Thorough => vec![
             Enc::Gzip(0),
             Enc::Gzip(1),
@@ -136,6 +191,10 @@ pub fn encodings(tier: Tier) -> Vec<Enc> {
             Enc::Brotli(5, 22),
             Enc::Brotli(11, 16),
             Enc::Brotli(11, 22),
+            Enc::ZlibWindow(9),
+            Enc::ZlibWindow(12),
+            Enc::ZlibWindow(14),
+            Enc::GzipFields,
         ],
     }
 }
